@@ -510,7 +510,15 @@ class ClassParser(BaseParser):
         ):
             # if __init__ is declared but passed, we still make a new one
 
-            def __init__(_obj_self, _d: dict = None, **kwargs):
+            def __init__(*args, **kwargs):
+                # (_obj_self, _d: dict = None, /, **kwargs) without the 3.8 syntax:
+                # keys named '_obj_self' / '_d' are keys of the data like any other
+                if not 1 <= len(args) <= 2:
+                    raise TypeError(
+                        f"__init__() takes from 1 to 2 positional arguments but {len(args)} were given"
+                    )
+                _obj_self = args[0]
+                _d = args[1] if len(args) > 1 else None
                 parser = self.get_parser(_obj_self)
 
                 context = getattr(_obj_self, "__context__", None)
